@@ -16,9 +16,9 @@
 (* pairwise (mu_2 = -mu_1, mu_4 = conj mu_3) under every operation.         *)
 (***************************************************************************)
 EXTENDS Ops, TLC, Json
-CONSTANTS Depth, ANum, ADen, EMIT
-VARIABLES hist, re, im, V
-vars == <<hist, re, im, V>>
+CONSTANTS Depth, ANum, ADen, MeasMode, EMIT
+VARIABLES hist, re, im, V, lw, done
+vars == <<hist, re, im, V, lw, done>>
 K == One
 NMc == 2
 a345  == <<Q(3, 5), Q(4, 5)>>
@@ -40,17 +40,54 @@ Mean0(th) == LET c == RMul(Two, RMul(Amp, th[1]))  s == RMul(Two, RMul(Amp, th[2
 Init == /\ \E i \in 1 .. Len(CatAngles) :
               /\ hist = << [name |-> "Catstate", p |-> <<Amp, CatAngles[i]>>, modes |-> <<0>>, dag |-> FALSE] >>
               /\ re = Mean0(CatAngles[i]).re /\ im = Mean0(CatAngles[i]).im
-        /\ V = IdM(4)
-Step(op) == /\ Len(hist) - 1 < Depth
+        /\ V = IdM(4) /\ done = FALSE /\ lw = [k \in 1 .. 4 |-> <<Zero, Zero>>]
+Step(op) == /\ Len(hist) - 1 < Depth /\ ~done /\ UNCHANGED <<lw, done>>
             /\ hist' = Append(hist, op)
             /\ re' = [k \in 1 .. 4 |-> Apply(St(re[k]), op, K).mu]
             /\ im' = [k \in 1 .. 4 |-> Hom(St(im[k]), op).mu]
             /\ V' = Apply(St(re[1]), op, K).V
-Next == \E i \in 1 .. Len(Alphabet) : Step(Alphabet[i])
+\* ---- a post-selected measurement (C06): every component is conditioned like a Gaussian state -- its mean moves by the gain
+\* times the (complex) innovation, the shared covariance by the Schur complement -- and its weight is multiplied by the value of
+\* its (complex) Gaussian density at the outcome, exp(lw).  TLC computes the exponent exactly (real and imaginary part).
+HomAngles == <<A0, a345, APi2>>
+HomVals   == <<Q(1, 2), Q(-3, 4)>>
+HetVals   == << <<Q(1, 4), Q(-1, 2)>>, <<Zero, Q(1, 2)>> >>
+MeasHom(m, a, x0) ==
+   /\ MeasMode = "final" /\ ~done /\ done' = TRUE
+   /\ hist' = Append(hist, [name |-> "MeasureHomodyne", p |-> <<a, x0>>, modes |-> <<m>>, dag |-> FALSE])
+   /\ re' = [k \in 1 .. 4 |-> Homodyne(St(re[k]), m, a, x0).mu]
+   /\ im' = [k \in 1 .. 4 |-> Homodyne(St(im[k]), m, a, Zero).mu]
+   /\ V' = Homodyne(St(re[1]), m, a, x0).V
+   /\ lw' = [k \in 1 .. 4 |->
+              LET s  == HomBornVar(St(re[k]), m, a)
+                  d  == RSub(x0, HomBornMean(St(re[k]), m, a))
+                  mi == HomBornMean(St(im[k]), m, a)
+              IN  <<RNeg(RDiv(RSub(RSq(d), RSq(mi)), RMul(Two, s))), RDiv(RMul(d, mi), s)>>]
+BiForm(B, u, v) == Dot(u, MatVec(B, v))
+MeasHet(m, al) ==
+   /\ MeasMode = "final" /\ ~done /\ done' = TRUE
+   /\ hist' = Append(hist, [name |-> "MeasureHeterodyne", p |-> <<al>>, modes |-> <<m>>, dag |-> FALSE])
+   /\ re' = [k \in 1 .. 4 |-> Heterodyne(St(re[k]), m, al).mu]
+   /\ im' = [k \in 1 .. 4 |-> Heterodyne(St(im[k]), m, <<Zero, Zero>>).mu]
+   /\ V' = Heterodyne(St(re[1]), m, al).V
+   /\ lw' = [k \in 1 .. 4 |->
+              LET Bi == Inv2(HetBornCov(St(re[k]), m))
+                  mr == HetBornMean(St(re[k]), m)
+                  mi == HetBornMean(St(im[k]), m)
+                  dr == <<RSub(RMul(Two, al[1]), mr[1]), RSub(RMul(Two, al[2]), mr[2])>>
+                  di == <<RNeg(mi[1]), RNeg(mi[2])>>
+              IN  <<RMul(Q(-1, 2), RSub(BiForm(Bi, dr, dr), BiForm(Bi, di, di))), RNeg(BiForm(Bi, dr, di))>>]
+Next == \/ \E i \in 1 .. Len(Alphabet) : Step(Alphabet[i])
+        \/ \E m \in {0, 1}, i \in 1 .. Len(HomAngles), j \in 1 .. Len(HomVals) : MeasHom(m, HomAngles[i], HomVals[j])
+        \/ \E m \in {0, 1}, j \in 1 .. Len(HetVals) : MeasHet(m, HetVals[j])
 Spec == Init /\ [][Next]_vars
 CovPhysical == IsSymmetric(V) /\ ModeUncertainty(St(re[1]))
 \* the structure of the combination is preserved by every Gaussian operation
 Paired == /\ VecAdd(re[1], re[2]) = VecAdd(re[3], re[4])          \* both pairs are centred on the same (displaced) point
           /\ im[1] = ZeroV(4) /\ im[2] = ZeroV(4) /\ im[4] = [i \in 1 .. 4 |-> RNeg(im[3][i])] /\ re[3] = re[4]
-EmitInv == EMIT => PrintT(ToJson([hist |-> hist, re |-> re, im |-> im, V |-> V, amp |-> Amp]))
+\* the measured mode is left in the vacuum, uncorrelated: every component mean vanishes there
+MeasuredModeReset == done => LET m == hist[Len(hist)].modes[1]  i == m + 1 IN
+                        /\ \A k \in 1 .. 4 : re[k][i] = Zero /\ re[k][i + 2] = Zero /\ im[k][i] = Zero /\ im[k][i + 2] = Zero
+                        /\ V[i][i] = One /\ V[i + 2][i + 2] = One /\ V[i][i + 2] = Zero
+EmitInv == (EMIT /\ (MeasMode = "none" \/ done)) => PrintT(ToJson([hist |-> hist, re |-> re, im |-> im, V |-> V, amp |-> Amp, lw |-> lw]))
 =============================================================================
